@@ -26,6 +26,9 @@ def run(ctx):
                 "built by a property / an instance attribute with __call__ / that cannot be printed or compared) at every "
                 "position of a batch with every raise code; a promise resolved with a promise in every state (EVENTUAL, "
                 "CHAINED over 1..2 hops or to itself, NEAR, BROKEN, settled through a chain, notification still queued); "
+                "send / sendOnly to a promise in every state (unresolved, value, BROKEN, chained to an unresolved / resolved / "
+                "BROKEN promise) before the state is entered, in the same turn, in later turns, every result observed in the "
+                "turn of its send and late; "
                 "all words up to a length over a template alphabet plus seeded random longer ones (every second random "
                 "script / fireEventually value of a non-plain kind, chosen by its id); "
                 "a case is non-trivial when at least one callable ran / one message was delivered or one observer fired")
@@ -970,8 +973,70 @@ def pr_target_state_family(ctx):
     return out
 
 
+def pr_send_state_family(ctx):
+    """send / sendOnly to promise 0 IN EVERY STATE it can be in at the moment of the send: unresolved (settling later with
+    a value / a Failure / never), resolved to a value, BROKEN, resolved to another promise (unresolved and settling later
+    with a value / a Failure; already resolved to a value; already BROKEN) -- one batch of messages before the state is
+    entered, one right after it IN THE SAME TURN, one in a later turn, one after the end of a chain settled; with and
+    without a reactor call in each gap.  Every result promise gets an observer of each kind (when / _then / _except) in
+    the turn of the send, and a late one at the end.  The oracle's rule is the property's: no observer of a result hears
+    anything in the sender's turn, and the outcomes of the messages sent to one promise are observed in send order.
+    Deterministic; the first program is the fixed witness (send, break, send in the same turn).  (seeded change C17-r8s1:
+    a send to a BROKEN promise resolved its result on the spot instead of going through the eventual-send queue.)"""
+    out = []
+    #        name              enter promise 0's state                                        settle later
+    states = [("broken", [["resolve", 0, ["fail", 6]]], []),
+              ("near", [["resolve", 0, ["val", 5]]], []),
+              ("eventual-never", [], []),
+              ("eventual-val", [], [["resolve", 0, ["val", 5]]]),
+              ("eventual-fail", [], [["resolve", 0, ["fail", 6]]]),
+              ("chained-val", [["resolve", 0, ["prom", 1]]], [["resolve", 1, ["val", 7]]]),
+              ("chained-fail", [["resolve", 0, ["prom", 1]]], [["resolve", 1, ["fail", 8]]]),
+              ("chained-never", [["resolve", 0, ["prom", 1]]], []),
+              ("to-near", [["resolve", 1, ["val", 7]], ["resolve", 0, ["prom", 1]]], []),
+              ("to-broken", [["resolve", 1, ["fail", 8]], ["resolve", 0, ["prom", 1]]], []),
+              ("to-broken-settled", [["resolve", 1, ["fail", 8]], ["turn"], ["resolve", 0, ["prom", 1]]], [])]
+    for name, enter, settle in states:
+        for gaps in itertools.product((False, True), repeat=3):
+            for rich in (False, True):
+                if rich and gaps not in ((False, False, False), (True, True, True), (False, True, False)):
+                    continue
+                prog = [["new"], ["new"]]
+                st = dict(n=2, mid=0, w=100, results=[])
+
+                def batch(behs):
+                    o = []
+                    for how, beh in behs:
+                        st["mid"] += 1
+                        o.append([how, 0, st["mid"], beh])
+                        if how == "send":
+                            r = st["n"]
+                            st["n"] += 1
+                            st["results"].append(r)
+                            for kind in (("when", "then", "except") if rich else ("when",)):
+                                st["w"] += 1
+                                o.append(["when", r, st["w"], kind])
+                    return o
+                if rich:
+                    A = [("send", ["ret", 41]), ("sendonly", ["ret", 0]), ("send", ["raise", 62])]
+                    B = [("send", ["ret", 43]), ("sendonly", ["raise", 64]), ("send", ["nometh"]), ("send", ["ret", 45])]
+                else:
+                    A = [("send", ["ret", 41])]
+                    B = [("send", ["ret", 43]), ("sendonly", ["ret", 0])]
+                C = [("send", ["ret", 46]), ("sendonly", ["ret", 0]), ("send", ["raise", 67])]
+                T = [[["turn"]] if g else [] for g in gaps]
+                prog += batch(A) + T[0] + enter + batch(B) + T[1] + batch(C) + T[2] + settle + batch(A[:1])
+                prog += [["turn"], ["turn"], ["turn"]] + batch(B[:1]) + [["turn"], ["turn"], ["turn"]]
+                for r in st["results"]:
+                    st["w"] += 1
+                    prog.append(["when", r, st["w"], "when"])
+                prog += [["turn"], ["turn"]]
+                out.append(prog)
+    return out
+
+
 def pr_programs(ctx):
-    out = pr_chain_family(ctx) + pr_args_family(ctx) + pr_deferred_family(ctx) + pr_backlog_family(ctx) + pr_callable_family(ctx) \
+    out = pr_send_state_family(ctx) + pr_chain_family(ctx) + pr_args_family(ctx) + pr_deferred_family(ctx) + pr_backlog_family(ctx) + pr_callable_family(ctx) \
         + pr_target_state_family(ctx)
     maxlen = ctx.n(3, 4)
     thorough = ctx.tier == "thorough"
